@@ -30,6 +30,7 @@ Definition pr_op (o : op) : string :=
   | CWrite k i c => "W:" ++ nat_to_string k ++ ":" ++ nat_to_string i ++ ":" ++ hex_of_ascii c
   | CAppend k d _ => "P:" ++ nat_to_string k ++ ":" ++ hex_of_bytes d
   | CSetUnbuf k d _ => "U:" ++ nat_to_string k ++ ":" ++ string_of_bytes d
+  | OBufferizeFrom k _ => "BF:" ++ nat_to_string k
   end.
 
 (* ---------- printing observations ---------- *)
@@ -53,7 +54,7 @@ Fixpoint trace (tight : bool) (pr : state -> string) (st : state) (ops : list op
   end.
 
 Definition has_client (ops : list op) : bool :=
-  existsb (fun o => match o with CWrite _ _ _ | CAppend _ _ _ | CSetUnbuf _ _ _ => true | _ => false end) ops.
+  existsb (fun o => match o with CWrite _ _ _ | CAppend _ _ _ | CSetUnbuf _ _ _ | OBufferizeFrom _ _ => true | _ => false end) ops.
 Definition has_reset (ops : list op) : bool :=
   existsb (fun o => match o with OReset => true | _ => false end) ops.
 
@@ -71,6 +72,7 @@ Definition adds (o : op) : nat :=
   match o with
   | OBufferize _ _ | OBufferizeString _ _ | OAssignBytes _ _ | OAssignStr _ _ => 1
   | OCopyTo fs _ => List.length fs
+  | OBufferizeFrom _ _ => 1
   | _ => 0
   end.
 
@@ -79,7 +81,7 @@ Definition alphabet (n : nat) : list op :=
    OAssignBytes (b "42") 0; OAssignStr (b "7") 0; OAssignBytes (b "true") 0; OAssignStr (b "false") 0; OCopyTo [(true, b "e"); (false, b "fg")] 0; OReset] ++
   (if Nat.eqb n 0 then [] else
      [CWrite (n - 1) 0 "!"%char; CAppend 0 (b "Q") 0; CAppend (n - 1) (b "QQQQQQQQQ") 0;
-      CSetUnbuf 0 (b "5") 0; CSetUnbuf (n - 1) (b "123456789") 0]).
+      CSetUnbuf 0 (b "5") 0; CSetUnbuf (n - 1) (b "123456789") 0; OBufferizeFrom (n - 1) 0; OBufferizeFrom 0 0]).
 
 Fixpoint enum (depth : nat) (n : nat) : list (list op) :=
   match depth with
@@ -112,7 +114,7 @@ Definition rnd_digits (s : rng) : list ascii * rng :=
   let '(v, s1) := rng_pick s 100000 in (bytes_of_string (N_to_string v), s1).
 
 Definition rnd_op (s : rng) (n : nat) : op * rng :=
-  let '(c, s1) := rng_nat s (if Nat.eqb n 0 then 9 else 16) in
+  let '(c, s1) := rng_nat s (if Nat.eqb n 0 then 9 else 17) in
   match c with
   | 0 => let '(d, s2) := rnd_bytes s1 6 in (OBufferize d 0, s2)
   | 1 => let '(d, s2) := rnd_bytes s1 6 in (OBufferizeString d 0, s2)
@@ -130,7 +132,8 @@ Definition rnd_op (s : rng) (n : nat) : op * rng :=
   | 9 | 10 => let '(k, s2) := rng_nat s1 n in let '(i, s3) := rng_nat s2 4 in
          let '(c, s4) := rng_pick s3 256 in (CWrite k i (ascii_of_N c), s4)
   | 11 | 12 | 13 => let '(k, s2) := rng_nat s1 n in let '(d, s3) := rnd_bytes s2 5 in (CAppend k d 0, s3)
-  | _ => let '(k, s2) := rng_nat s1 n in let '(d, s3) := rnd_digits s2 in (CSetUnbuf k d 0, s3)
+  | 14 => let '(k, s2) := rng_nat s1 n in let '(d, s3) := rnd_digits s2 in (CSetUnbuf k d 0, s3)
+  | _ => let '(k, s2) := rng_nat s1 n in (OBufferizeFrom k 0, s2)
   end.
 
 Fixpoint rnd_ops (len : nat) (s : rng) (n : nat) : list op * rng :=
